@@ -3,7 +3,7 @@
 P=$1; I=$2; CRATE=$3; CDIR=$4
 WT=/tmp/mut-$P; OUT=/tmp/mut-$P-out${ROUND:-}/$I
 export CARGO_NET_OFFLINE=true CARGO_TARGET_DIR=/tmp/mut-$P-target
-cd $WT && git checkout -q -- . && git clean -fdq && git checkout -q --detach f6ea237 2>/dev/null
+cd $WT || exit 9; git checkout -q -- . && git clean -fdq && git checkout -q --detach f6ea237 2>/dev/null
 res() { echo "RESULT $P/$I $1"; }
 if ! git apply --check $OUT/patch.diff 2>/dev/null; then res "patch-does-not-apply-to-HEAD"; exit 0; fi
 if [ -d $OUT/demo ]; then
